@@ -57,6 +57,7 @@ type Engine struct {
 	named         map[string]string
 	regionAcc     map[string][]string
 	opaqueDefs    map[string]string // opaque spec function -> defining axiom
+	onAlloc       map[string]string
 	nonNilGlobals map[*ssa.Global]bool
 	nonNilComps   map[string]bool
 }
@@ -124,7 +125,7 @@ func (e *Engine) stringConst(x *Exec, s string) string {
 }
 
 func loadEngine(repo, verifDir string, patterns []string, overlay map[string][]byte) (*Engine, error) {
-	e := &Engine{repo: repo, verifDir: verifDir, fns: map[string]*ssa.Function{}, contracts: map[string]*Contract{}, specFns: map[string]*SpecFn{}, specConsts: map[string]string{}, ghosts: map[string]string{}, regions: map[string][]string{}, typeIDs: map[string]int{}, so: newSorts(), wsMemo: map[*ssa.Function]*WriteSet{}, wsBusy: map[*ssa.Function]bool{}, allPkgs: map[string]*types.Package{}, rowOps: map[string]bool{}, mapCards: map[string]string{}, strConsts: map[string]int{}, axioms: map[string][]Clause{}, onStore: map[string]string{}, storeFacts: map[string]predApp{}, ghostByValue: map[string]bool{}, named: map[string]string{}, regionAcc: map[string][]string{}, opaqueDefs: map[string]string{}}
+	e := &Engine{repo: repo, verifDir: verifDir, fns: map[string]*ssa.Function{}, contracts: map[string]*Contract{}, specFns: map[string]*SpecFn{}, specConsts: map[string]string{}, ghosts: map[string]string{}, regions: map[string][]string{}, typeIDs: map[string]int{}, so: newSorts(), wsMemo: map[*ssa.Function]*WriteSet{}, wsBusy: map[*ssa.Function]bool{}, allPkgs: map[string]*types.Package{}, rowOps: map[string]bool{}, mapCards: map[string]string{}, strConsts: map[string]int{}, axioms: map[string][]Clause{}, onStore: map[string]string{}, storeFacts: map[string]predApp{}, ghostByValue: map[string]bool{}, named: map[string]string{}, regionAcc: map[string][]string{}, opaqueDefs: map[string]string{}, onAlloc: map[string]string{}}
 	// scratch copy of go.mod/go.sum so that the repository is never written
 	tmp, err := os.MkdirTemp("", "govcmod")
 	if err != nil {
@@ -346,6 +347,13 @@ func (e *Engine) loadSpecSMT(path string) error {
 				return fmt.Errorf("%s:%d: unknown type %s", path, ln+1, fs[1])
 			}
 			e.named[typeKey(t)] = fs[2]
+		case "onalloc":
+			// ;@onalloc iavl.Node ghostclear inptr — a fresh object is not in the ghost set
+			t := e.lookupType(fs[1], nil)
+			if t == nil || len(fs) != 4 {
+				return fmt.Errorf("%s:%d: bad onalloc", path, ln+1)
+			}
+			e.onAlloc[e.so.structComp(t)] = fs[3]
 		case "stateinv":
 			e.stateInvs = append(e.stateInvs, predApp{Pred: fs[1], Args: fs[2:]})
 		case "storefact":
